@@ -241,6 +241,74 @@ theorem pairing_regression :
     (SegIdx.runGens (⟨[], []⟩ : SegIdx Nat Nat) [⟨[], some (0, 100, .segOnly)⟩, ⟨[(1, 101)], none⟩]).paired
       = [(1, some 101)] := by decide
 
+/-! ## Partition snapshots: a stale snapshot.json never hides acknowledged records -/
+
+/-- byte-level model of `loadPartition`: the snapshot path is taken only when a snapshot is present and lists exactly
+the current segment files with their current sizes -/
+theorem loadPartition_snapshot_only_if_sizes_equal (crc : Bytes → Nat) (segs : List (Nat × Bytes × Option Bytes)) (sp : Bool)
+    (snap : Option Snap) (h : (loadPartition crc segs sp snap).viaSnapshot = true) :
+    ∃ s, snap = some s ∧ s.segs.length = segs.length ∧
+      (s.segs.zip segs).all (fun (ss, sg) => ss.1 = sg.1 && ss.2 = sg.2.1.length) = true := by
+  unfold loadPartition at h
+  cases snap with
+  | none =>
+    simp only [Bool.and_eq_true, ite_self] at h
+    split at h <;> (try split at h) <;> simp_all
+  | some s =>
+    refine ⟨s, rfl, ?_⟩
+    by_cases c1 : (sp && decide (segs.length > 0)) = true
+    · by_cases c2 : (decide (s.segs.length = segs.length) && (s.segs.zip segs).all (fun (ss, sg) => ss.1 = sg.1 && ss.2 = sg.2.1.length)) = true
+      · simp only [Bool.and_eq_true, decide_eq_true_eq] at c2
+        exact c2
+      · simp only [c1, c2] at h
+        split at h <;> (try split at h) <;> simp_all
+    · simp only [c1] at h
+      split at h <;> (try split at h) <;> simp_all
+
+
+/-- SNAPSHOTS, ALL LINEAGES. `snapshot.json` is written only by a clean Close. Over every lineage — acknowledged appends
+in any segment layout (same file or after rolls), crashes leaving any torn bytes and any layout of the same complete
+batches, restarts (start-up truncation), clean Closes, in any order and number — start-up recovers a high watermark
+equal to the end of ALL complete durable batches, i.e. every acknowledged record, whether the snapshot path or the full
+replay is taken: a stale snapshot from an earlier clean Close never lowers it. -/
+theorem snapshot_all_lineages (d : PDisk) (h : PReach d) : d.recoverHwm = d.count :=
+  recoverHwm_eq_count (pinv_reach h)
+
+/-- The key lemma behind it: on a reachable disk a snapshot whose recorded sizes equal the current file sizes (the
+only case in which `loadPartition` uses it) describes exactly the current log — same high watermark, no torn bytes;
+any append since the Close changes a size (every batch has bytes), so a stale snapshot forces a full replay. -/
+theorem snapshot_used_only_if_current (d : PDisk) (h : PReach d) (sz : List Nat) (hw : Nat) (hs : d.snap = some (sz, hw))
+    (hm : sz = d.sizes) : hw = d.count ∧ d.junk = 0 :=
+  snapshot_matches_only_if_current (pinv_reach h) sz hw hs hm
+
+/-- the lineage close → produce → crash: two batches before the Close, one acknowledged after it, then a crash -/
+def staleDisk : PDisk := { segs := [[⟨3, 94⟩, ⟨1, 72⟩, ⟨2, 83⟩]], junk := 0, snap := some ([166], 4) }
+
+theorem staleDisk_reachable : PReach staleDisk := by
+  have h0 : PReach {} := PReach.init
+  have h1 := PReach.step h0 (PStep.append {} ⟨3, 94⟩ [[⟨3, 94⟩]] rfl (by decide) rfl)
+  have h2 := PReach.step h1 (PStep.append _ ⟨1, 72⟩ [[⟨3, 94⟩, ⟨1, 72⟩]] rfl (by decide) rfl)
+  have h3 := PReach.step h2 (PStep.close _ rfl)
+  have h4 := PReach.step h3 (PStep.restart _)
+  have h5 := PReach.step h4 (PStep.append _ ⟨2, 83⟩ [[⟨3, 94⟩, ⟨1, 72⟩, ⟨2, 83⟩]] rfl (by decide) rfl)
+  have h6 := PReach.step h5 (PStep.crash _ [[⟨3, 94⟩, ⟨1, 72⟩, ⟨2, 83⟩]] 0 rfl)
+  exact h6
+
+/-- non-vacuity: the stale snapshot is on disk, does not match (166 ≠ 249), and the full replay recovers all 6 records -/
+example : staleDisk.snap = some ([166], 4) ∧ staleDisk.sizes = [249] ∧ staleDisk.recoverHwm = 6 ∧ staleDisk.count = 6 := by decide
+
+/-- the comparison of the seeded change C33b (`info.Size() < ss.Size` rejects, i.e. recorded ≤ current accepts) -/
+def acceptNotShorter (sz cur : List Nat) : Bool := sz.length = cur.length && (sz.zip cur).all (fun (a, b) => decide (a ≤ b))
+
+/-- with that comparison the statement is false: the stale snapshot is accepted and records 4 and 5, acknowledged before
+the crash, lie above the recovered high watermark -/
+theorem snapshot_all_lineages_needs_equality :
+    ¬ ∀ d, PReach d → d.recoverHwmWith acceptNotShorter = d.count := by
+  intro h
+  have := h staleDisk staleDisk_reachable
+  revert this
+  decide
+
 /-! ## Transactions open at a crash -/
 
 /-- CRASH-ABORT DURABILITY (false):
